@@ -11,7 +11,7 @@
 From Coq Require Import Reals List Bool Arith NArith.
 From Coquelicot Require Import Complex.
 From QV Require Import Sem Mat2 Toff2 Chain UcrPlaced TopDownWalk Cvoqram CvoLoop CvoModel CvoGates CvoAux.
-From QV Require McxModel IrProps FnSem PivotCert.
+From QV Require McxModel IrProps FnSem PivotCert SparseSim.
 Import ListNotations.
 
 Theorem C06_cvo_step : forall (u : nat) (ctl : list nat), ~ In u ctl -> NoDup ctl ->
@@ -87,3 +87,16 @@ Theorem C06_classical_moves_basis : forall (P : list McxModel.sgate), Forall Piv
   forall l, McxModel.srun P (FnSem.den l) = FnSem.den (map (fun e => (fst e, PivotCert.scls P (snd e))) l).
 Proof. exact PivotCert.srun_den. Qed.
 Print Assumptions C06_classical_moves_basis.
+
+(* MergeInitialize and any other circuit of X, CX and multi-controlled one-qubit gates with arbitrary matrices M i: the symbolic
+   sparse simulation (computable: basis states and, per basis state, the list of matrix entries to multiply) denotes the operator
+   semantics, from |0..0> and from every finite superposition. *)
+Theorem C06_sparse_sim : forall (M : nat -> mat2) (gates : list SparseSim.mg), forallb SparseSim.mwfb gates = true ->
+  forall l, SparseSim.mrun M gates (FnSem.den (map (SparseSim.ev M) l)) = FnSem.den (map (SparseSim.ev M) (SparseSim.ssim gates l)).
+Proof. exact SparseSim.ssim_sound_b. Qed.
+Print Assumptions C06_sparse_sim.
+
+Theorem C06_sparse_sim_from_zero : forall (M : nat -> mat2) (gates : list SparseSim.mg), forallb SparseSim.mwfb gates = true ->
+  SparseSim.mrun M gates (fun b => delta b 0%N) = FnSem.den (map (SparseSim.ev M) (SparseSim.ssim gates [([], 0%N)])).
+Proof. exact SparseSim.ssim_from_zero. Qed.
+Print Assumptions C06_sparse_sim_from_zero.
